@@ -123,6 +123,7 @@ type rcOps struct {
 	clear      func() bool
 	setState   func(s int) <-chan struct{}
 	getState   func() int
+	swapState  func(f func(int) int) int
 }
 
 // letters
@@ -259,6 +260,10 @@ func newSRC(outcomes []int, opts ...routine.Option) *rcOps {
 			return ch
 		},
 		getState: k.GetState,
+		swapState: func(f func(int) int) int {
+			n, _, _, _, _ := k.SwapValue(f)
+			return n
+		},
 	}
 }
 
@@ -375,6 +380,48 @@ func init() {
 		Doc:   "StateRoutineContainer, two concurrent controllers: T1 = SetContext(c1); SetContext(c2,true)  ||  T2 = SetState(1); SetState(0); SetState(2)",
 		Quick: eng.Bounds{PB: 2}, Thorough: eng.Bounds{PB: 3},
 		Body: routineTwo(true, []int{lCtxFresh, lCtxFreshRestart}, []int{lState1, lState0, lState2}, []int{iUntilCancelled}),
+	})
+	eng.Register(&eng.Scenario{
+		Name: "sroutine-getstate", Props: []string{"C05", "C04"}, MustFinish: true, ObsNames: stdObs,
+		Doc:   "StateRoutineContainer: T1 = SetState(1); SetState(2)  ||  T2 = GetState x3 (never goes backwards)  ||  T3 = SwapValue(+10); context set beforehand: final state is 2 or 12 and the survivor was given GetState()",
+		Quick: eng.Bounds{PB: 3, Delay: true}, Thorough: eng.Bounds{PB: 4, Delay: true},
+		Body: func() {
+			o := newSRC([]int{iUntilCancelled})
+			var cur context.Context
+			doLetter(o, lSetRoutine, &cur, "init")
+			doLetter(o, lCtxFresh, &cur, "init")
+			T("T1", func() {
+				doLetter(o, lState1, &cur, "T1")
+				doLetter(o, lState2, &cur, "T1")
+			})
+			T("T2", func() {
+				rank := func(s int) int { return s % 10 }
+				last := 0
+				for i := 0; i < 3; i++ {
+					s := o.getState()
+					vsched.Observe(oVal, int64(s), 0, 0)
+					if s != 0 && s != 1 && s != 2 && s != 10 && s != 11 && s != 12 {
+						fail("C05.bogus-state", "GetState returned %d", s)
+					}
+					if rank(s) < rank(last) && !(s < 10 && last >= 10) {
+						fail("C05.state-went-back", "GetState returned %d after %d", s, last)
+					}
+					last = s
+				}
+			})
+			T("T3", func() {
+				n := o.swapState(func(v int) int { return v + 10 })
+				vsched.Observe(oVal, int64(n), 1, 0)
+			})
+			vsched.Settle()
+			vsched.CtrSet(rState, int64(o.getState()))
+			if s := o.getState(); s != 2 && s != 12 {
+				fail("C05.stale-state", "final GetState()=%d, want 2 or 12", s)
+			}
+			finalRoutineOracle(o, true)
+			o.clear()
+			vsched.Settle()
+		},
 	})
 	eng.Register(&eng.Scenario{
 		Name: "routine-two", Props: []string{"C05", "C04"}, ObsNames: stdObs,
